@@ -444,6 +444,10 @@ def _inline_body(st, callee, caller_names, func):
     return out
 
 
+from ..lib_C01 import (class_methods, expand_private_calls,  # noqa: E402,F401,F811
+                       module_function, module_value)
+
+
 def _counted_while_to_for(func):
     """`v = 0 … while v < E: body; v += 1` -> `for v in range(E): body`
     (v assigned nowhere else, no continue in the body) – the two loops run
@@ -1930,7 +1934,7 @@ def deref(repo, rel, func, node, depth=0):
         if defs or other:
             raise AnalysisError(f"{func.name}: `{node.id}` has several "
                                 f"definitions – cannot resolve")
-    val = repo.module_assign(rel, node.id, missing_ok=True)
+    val = module_value(repo, rel, node.id)
     if val is None:
         raise AnalysisError(f"{rel}: name `{node.id}` cannot be resolved")
     return deref(repo, rel, None, val, depth + 1)
@@ -1943,7 +1947,7 @@ def group_literals(node, bases, repo=None, rel=None):
     def lit(e):
         v = const_str(e)
         if v is None and isinstance(e, ast.Name) and repo is not None:
-            m = repo.module_assign(rel, e.id, missing_ok=True)
+            m = module_value(repo, rel, e.id)
             v = const_str(m) if m is not None else None
         return v
     out = set()
@@ -2540,19 +2544,22 @@ def r15(ctx, repo):
                                "FEATURES_SCALAR"))
     seen = {}
     for tab in ("FEATURES_UINT32", "FEATURES_UINT64"):
-        names = fold_str_list(repo.module_assign(WR, tab), tab)
+        tabval = module_value(repo, WR, tab)
+        if tabval is None:
+            raise AnalysisError(f"anchor vanished: {WR}::{tab}")
+        names = fold_str_list(tabval, tab)
         seen[tab] = set(names)
         miss = sorted(set(names) - scalar)
         ctx.ob("R1.5", not miss, f"every name of {tab} is a scalar feature"
                if not miss else f"{tab} lists {miss}, not scalar features: "
                f"the integer dtype is never applied",
-               node=repo.module_assign(WR, tab),
+               node=tabval,
                key=f"{WR}::{tab}::names are scalar features")
     _dtype_by_name_only(ctx, repo, sf, scalar)
     both = seen["FEATURES_UINT32"] & seen["FEATURES_UINT64"]
     ctx.ob("R1.5", not both, "the integer tables are disjoint" if not both
            else f"{sorted(both)} listed as uint32 and uint64",
-           node=repo.module_assign(WR, "FEATURES_UINT32"),
+           node=module_value(repo, WR, "FEATURES_UINT32"),
            key=f"{WR}::FEATURES_UINT32::disjoint from FEATURES_UINT64",
            nontrivial=False)
     # text codec
@@ -2598,7 +2605,7 @@ class _Anything(dict):
 
 
 def r16(ctx, repo):
-    ex = repo.func(WR, "RTDCWriter.__exit__")
+    ex = wfunc(repo, WR, "RTDCWriter.__exit__")
     cfg = CFG(ex)
 
     def closes(n):
@@ -3166,7 +3173,7 @@ def _replace_units(ctx, f, guard, dels):
 
 
 def r18(ctx, repo):
-    init = repo.func(WR, "RTDCWriter.__init__")
+    init = wfunc(repo, WR, "RTDCWriter.__init__")
     files = [c for c in find_calls(init, name="h5py.File")]
     if len(files) != 1:
         raise AnalysisError("__init__: h5py.File call lost")
@@ -3176,8 +3183,21 @@ def r18(ctx, repo):
                             f"recognised")
     bad = []
     for m in MODES:
-        t = eval_pred(md.test, {"mode": m}, lambda n: "mode" if isinstance(
-            n, ast.Name) and n.id == "mode" else None)
+        def mode_res(n):
+            if (isinstance(n, ast.Name) and n.id == "mode") \
+                    or is_self_attr(n, "mode"):
+                return "mode"
+            if isinstance(n, ast.Name):
+                # a local copy of the writer mode
+                ds = [x for x in walk(init) if isinstance(x, ast.Assign)
+                      and any(isinstance(t_, ast.Name) and t_.id == n.id
+                              for t_ in x.targets)]
+                if len(ds) == 1 and (is_self_attr(ds[0].value, "mode") or (
+                        isinstance(ds[0].value, ast.Name)
+                        and ds[0].value.id == "mode")):
+                    return "mode"
+            return None
+        t = eval_pred(md.test, {"mode": m}, mode_res)
         got = const_str(md.body if t else md.orelse)
         want = "w" if m == "reset" else "a"
         if got != want:
@@ -3348,6 +3368,11 @@ def r19(ctx, repo):
         for cls in tree.body:
             if not isinstance(cls, ast.ClassDef):
                 continue
+            if cls.name.startswith("_"):
+                # private helper classes (e.g. a cache object with explicit
+                # lookup / store methods) have fixed callers, like private
+                # methods; the readers that use them are analysed
+                continue
             for fn in cls.body:
                 if not isinstance(fn, ast.FunctionDef):
                     continue
@@ -3441,20 +3466,86 @@ def r1a(ctx, repo):
            + ": the file keeps the previously stored value and type",
            node=skip[0] if skip and not ok else lp,
            label="every given key is stored")
-    # the key is section:key of the iteration
-    keys = {txt(st.targets[0].slice) for st in stores}
-    kdefs = [n for n in walk(lp) if isinstance(n, ast.Assign)
-             and isinstance(n.targets[0], ast.Name)
-             and n.targets[0].id in keys]
-    ok = len(keys) == 1 and len(kdefs) == 1 and isinstance(
-        kdefs[0].value, ast.JoinedStr) and len([
-            v for v in kdefs[0].value.values
-            if isinstance(v, ast.FormattedValue)]) == 2 and ":" in "".join(
-            const_str(v) or "" for v in kdefs[0].value.values)
-    ctx.ob("R1.A", ok, "attributes are named <section>:<key>" if ok else
+    # a storing loop that is fed by a private generator: every iteration of
+    # the generator's key loop must reach a `yield`
+    gen = None
+    if isinstance(lp.iter, ast.Call) and isinstance(lp.iter.func, ast.Name):
+        got = module_function(repo, WR, lp.iter.func.id)
+        if got is not None and any(isinstance(n, ast.Yield)
+                                   for n in walk(got[1])):
+            gen = got[1]
+            gcfg = CFG(gen)
+            ystmts = [n for n in walk(gen) if isinstance(n, ast.Expr)
+                      and isinstance(n.value, ast.Yield)]
+            gloops = []
+            for y in ystmts:
+                gl = _loop_of(y, gen)
+                if gl is None:
+                    raise AnalysisError(f"{gen.name}: yield outside a loop")
+                if all(gl is not x for x in gloops):
+                    gloops.append(gl)
+            if len(gloops) != 1:
+                raise AnalysisError(f"{gen.name}: several yielding loops")
+            y_ids = {i for y in ystmts for i in gcfg.ids_of(y)}
+            okg = all(gcfg.must_pass(lambda n: n.id in y_ids, dst=h, src=i,
+                                     avoid_edge=lambda a_, lab, b_:
+                                     lab == "x")
+                      for h in gcfg.ids_of(gloops[0])
+                      for i in gcfg.ids_of(gloops[0].body[0]))
+            ctx.ob("R1.A", okg, f"{gen.name} yields every key of the given "
+                   f"metadata" if okg else f"an iteration of {gen.name} can "
+                   f"end without yielding the key: it is never stored",
+                   node=gloops[0], label="generator yields every key")
+        elif got is None or True:
+            if not (isinstance(lp.iter, ast.Call) and last_attr(lp.iter) in (
+                    "items", "keys", "values", "sorted", "list")):
+                raise AnalysisError(f"store_metadata: storing loop iterates "
+                                    f"`{short(lp.iter, 40)}` – not followed")
+    # the key is <section>:<key> of the iteration
+
+    def is_sec_key(e):
+        return isinstance(e, ast.JoinedStr) and len([
+            v for v in e.values if isinstance(v, ast.FormattedValue)]) == 2 \
+            and ":" in "".join(const_str(v) or "" for v in e.values)
+    okk = True
+    for st in stores:
+        k_ = st.targets[0].slice
+        if is_sec_key(k_):
+            continue
+        if isinstance(k_, ast.Name):
+            kd = [n for n in walk(lp) if isinstance(n, ast.Assign)
+                  and any(isinstance(t, ast.Name) and t.id == k_.id
+                          for t in n.targets)]
+            if len(kd) == 1 and is_sec_key(kd[0].value):
+                continue
+            if gen is not None and k_.id in names_in(lp.target):
+                pos = [i for i, e in enumerate(getattr(
+                    lp.target, "elts", [lp.target]))
+                    if isinstance(e, ast.Name) and e.id == k_.id]
+                ys = [n.value.value for n in walk(gen) if isinstance(
+                    n, ast.Expr) and isinstance(n.value, ast.Yield)]
+                good = bool(pos)
+                for y in ys:
+                    e = y.elts[pos[0]] if isinstance(y, ast.Tuple) \
+                        and pos and pos[0] < len(y.elts) else y
+                    if isinstance(e, ast.Name):
+                        gd = [n for n in walk(gen) if isinstance(
+                            n, ast.Assign) and any(
+                            isinstance(t, ast.Name) and t.id == e.id
+                            for t in n.targets)]
+                        e = gd[0].value if len(gd) == 1 else e
+                    good = good and is_sec_key(e)
+                if good:
+                    continue
+            if kd and not is_sec_key(kd[0].value) and len(kd) == 1 \
+                    and isinstance(kd[0].value, ast.JoinedStr):
+                okk = False
+                continue
+        raise AnalysisError(f"store_metadata: attribute name "
+                            f"`{short(k_, 30)}` not recognised")
+    ctx.ob("R1.A", okk, "attributes are named <section>:<key>" if okk else
            "attribute name is not built as <section>:<key>",
-           node=kdefs[0] if kdefs else lp, label="attribute name",
-           nontrivial=False)
+           node=stores[0], label="attribute name", nontrivial=False)
 
 
 # ----------------------------------------------------------------------
